@@ -59,7 +59,8 @@ def run(ctx):
         "distinct_nontrivial": nontrivial,
         "rule": "all byte strings up to the tier's length over {* $ + - 1 9 CR LF} (complete enumeration), mutants exported by the "
                 "TLA+ mutation model MC_C06 (truncate/delete/duplicate/flip/splice/boundary numbers), seeded random mutants of "
-                "random valid streams (some up to 1 MiB); inputs with >=7-digit declared sizes run in a subprocess under ulimit -v; "
+                "random valid streams (some up to 1 MiB); array headers nested 10 .. 6 000 000 deep, complete and cut off (generated inside "
+                "the worker, outcome types only); inputs with >=7-digit declared sizes and the nesting inputs run in a subprocess under ulimit -v; "
                 "non-trivial = distinct inputs that are not a clean sequence of values (the parser had to answer error/partial)",
         "samples": samples or [{"note": "sampling rule matched nothing"}],
         "exhaustive": True,
